@@ -143,6 +143,10 @@ mod k {
         let _ = (Tilt::from(v), Orientation::from(v), a, b);
     }
 
+    // (a Kani proof of SchedulesDb::get_year_as_day_sch on a small shape - one week [(d0,a),(d1,7-a)], two periods of
+    //  at most 4 days, symbolic counts - was tried: no answer in 1200 s (flat_map / cycle / skip / take over Vec<Uuid>);
+    //  the weekday alignment stays with the bounded obligation C17.year)
+
     // ---- C04: a field may be left out of the JSON only when it holds the value it gets back on loading ---------
     // (the serde helper pairs skip_serializing_if / default of bemodel::utils, for every f32 / bool)
     #[kani::proof]
